@@ -521,4 +521,21 @@ def fetchUrl {σ : Type} (env : Env) (o : Origin σ) (cfg : Cfg) (sched1 sched2 
     else a
   | .ok _ => a
 
+/-- one fetch of a sequence issued on one long-lived `FetchConfig`: the validator (and the other callbacks) current at that
+time, the two completion schedules, the URL -/
+structure SeqStep where
+  env : Env
+  sched1 : List Nat
+  sched2 : List Nat
+  url : Url
+
+/-- fetches issued one after the other on ONE `FetchConfig` against one (stateful) origin.  The code keeps nothing of a fetch
+for the next one (`Gen.Fetch.validationStateless`; the pooled session carries connections only), so each is `fetchUrl` under
+its own validator, started in the origin state the previous one left. -/
+def fetchSeq {σ : Type} (o : Origin σ) (cfg : Cfg) : List SeqStep → σ → List (SeqStep × Out σ Bytes)
+  | [], _ => []
+  | st :: rest, s =>
+    let r := fetchUrl st.env o cfg st.sched1 st.sched2 s st.url
+    (st, r) :: fetchSeq o cfg rest r.st
+
 end VgiVerif.C31
